@@ -167,7 +167,7 @@ impl Property for C04 {
                 }
             }
             // (6) owned == borrowed
-            {
+            let owned_result = guard(|| -> Result<(), String> {
                 let o1 = m.to_owned();
                 for i in 0..=n + 2 {
                     if o1.get(i) != m.get(i) {
@@ -191,7 +191,17 @@ impl Property for C04 {
                 if o1.complete() != p.as_str() || o1.to_candidate_path().as_ref() != p.as_str() {
                     return Err(format!("`{}` on {:?}: owned complete()/to_candidate_path() differ", text, p));
                 }
-                st.count("owned_compared");
+                Ok(())
+            });
+            match owned_result {
+                Ok(Ok(())) => st.count("owned_compared"),
+                Ok(Err(m)) => return Err(m),
+                Err(msg) => {
+                    return Err(format!(
+                        "`{}` on {:?}: reading the owned matched text panicked ({}), while the borrowed text it was made from answers every index 0..={}",
+                        text, p, msg, n + 2
+                    ));
+                },
             }
             // offsets
             let base = cand.as_ref().as_ptr() as usize;
